@@ -56,6 +56,11 @@ def big_tape_ff_at_dir():
     return tape.tape_file("BIG", 2, 0, 0x1000, 0x1000, data)
 
 
+def frag_disk():
+    # a valid disk image whose only file starts in the LAST granule and continues in lower ones (chain 67 -> 66 -> 65)
+    return db.build([("FRAG", "BIN", 2, 0, 0x2000, 0x2002, [(3 * i + 1) % 256 for i in range(5000)])], order=list(range(67, -1, -1)))
+
+
 PRE = {
     "absent": None,
     "empty": [],
@@ -65,6 +70,7 @@ PRE = {
     "arbitrary": lambda: [(i * 37 + 5) % 251 for i in range(300)],
     "bigcas": big_tape,
     "bigcas-ff": big_tape_ff_at_dir,
+    "dsk-frag": frag_disk,
 }
 
 
@@ -444,7 +450,7 @@ class CliFileUtil:
                                 "k": "existing", "src": src, "pre": pre, "append": ap})
             # the complete matrix of the property for file_util.py: every target kind x append x every kind of existing content
             for dst in ("cas", "dsk", "bin"):
-                for pre in ("empty", "cas", "dsk", "raw", "arbitrary", "bigcas-ff"):
+                for pre in ("empty", "cas", "dsk", "raw", "arbitrary", "bigcas-ff", "dsk-frag"):
                     for ap in (False, True):
                         out.append({"id": "fu/matrix/%s-to-%s/%s/%s" % (src, dst, pre, "append" if ap else "noappend"), "k": "matrix",
                                     "src": src, "dst": dst, "pre": pre, "append": ap})
